@@ -12,6 +12,7 @@ RULE = ("seeded runs of the real uploader/downloader on a simulated grid: k<=N<=
         "sizes concentrated on 0/55/56, segment and k boundaries; delivery order of every server answer drawn per message (uniform/heavy-tailed/FIFO latency), "
         "write-batch size, read chunk size, share-layout version, overdue timer and finder parallelism randomised per run; reads through a fresh client; "
         "non-trivial = an upload completed and a read/oracle ran; distinct = (probe counts, k, n, size) fingerprint")
+RULE += '; plus warm nodes (a completed earlier read), mostly multi-segment files, consumers that pause/stop at write counts or give up after a drawn simulated delay while a segment is in flight, reader segment-size guess knob, simulated CPU thread pool'
 TECHNIQUE = "deterministic simulation: seeded schedules over a simulated network/reactor, byte-exact and independent-decoder oracles"
 LEVEL_TEXT = "seeded search over inputs, configurations and delivery schedules; sampling, not enumeration"
 LEVEL_NOTE = ("real: allmydata.client._Client, Uploader/Encoder/Tahoe2ServerSelector, downloader, StorageFarmBroker/NativeStorageServer, StorageServer; "
